@@ -27,6 +27,9 @@ type Val struct {
 type Prop struct {
 	Key string `json:"key"`
 	V   Val    `json:"v"`
+	// KeyRef: the key is the name of a (string) user type, written unquoted:
+	// the property's key is described by that type.
+	KeyRef bool `json:"keyRef,omitempty"`
 }
 
 // Obj is an object schema: optional allOf bases and own properties.
